@@ -196,84 +196,94 @@ pub fn declared_work(bytes: &[u8], lim: &Limits) -> Work {
     if h.internal == 0 || h.internal > 4 {
         return w;
     }
-    fn go(bytes: &[u8], h: &SHeader, off: u64, len: u64, depth: u32, lim: &Limits, w: &mut Work) {
+    // iterative walk (a chain of thousands of leaves must not overflow *our* stack)
+    let mut seen: BTreeSet<(u64, u64)> = BTreeSet::new();
+    let mut todo: Vec<(u64, u64)> = vec![(h.root_off, h.root_len)];
+    while let Some((off, len)) = todo.pop() {
         if w.over {
-            return;
+            break;
+        }
+        // a directory that was already visited declares no new work (cycles and shared leaves are
+        // finite inputs; a reader that loops on them is at fault, not the budget)
+        if !seen.insert((off, len)) {
+            continue;
         }
         w.visits += 1;
-        if w.visits > lim.max_visits || depth > 64 {
+        if w.visits > lim.max_visits {
             w.over = true;
-            return;
+            break;
         }
-        let Some(end) = off.checked_add(len) else { return };
-        if end > bytes.len() as u64 {
-            // a reader would get a short stream; decode what is there
-        }
+        let Some(end) = off.checked_add(len) else { continue };
         let lo = (off.min(bytes.len() as u64)) as usize;
         let hi = (end.min(bytes.len() as u64)) as usize;
         let sl = &bytes[lo..hi];
-        let raw = match codec::decompress(h.internal, sl, lim.max_dir_bytes) {
-            Ok((r, _)) => r,
-            Err(e) => {
-                if e.contains("budget") {
-                    w.over = true;
-                }
-                return;
-            }
-        };
+        let (raw, over) = codec::decompress_lenient(h.internal, sl, lim.max_dir_bytes);
+        if over {
+            w.over = true;
+            break;
+        }
         w.dir_bytes += raw.len() as u64;
         if w.dir_bytes > lim.max_dir_bytes as u64 {
             w.over = true;
-            return;
+            break;
         }
-        // lenient decode: wrapping arithmetic, stop at first undecodable field
+        // lenient decode: wrapping arithmetic, stop at the first undecodable field
         let mut pos = 0usize;
-        let Ok(n) = super::varint::get(&raw, &mut pos) else { return };
+        let Ok(n) = super::varint::get(&raw, &mut pos) else { continue };
         if n > raw.len() as u64 {
-            return;
+            continue;
         }
         let n = n as usize;
-        let mut ids = Vec::with_capacity(n);
-        let mut last = 0u64;
-        for _ in 0..n {
-            let Ok(d) = super::varint::get(&raw, &mut pos) else { return };
-            last = last.wrapping_add(d);
-            ids.push(last);
+        let mut ok = true;
+        let mut col = |pos: &mut usize, ok: &mut bool| -> Vec<u64> {
+            let mut v = Vec::with_capacity(n);
+            for _ in 0..n {
+                match super::varint::get(&raw, pos) {
+                    Ok(x) => v.push(x),
+                    Err(_) => {
+                        *ok = false;
+                        break;
+                    }
+                }
+            }
+            v
+        };
+        let _ids = col(&mut pos, &mut ok);
+        if !ok {
+            continue;
         }
-        let mut runs = Vec::with_capacity(n);
-        for _ in 0..n {
-            let Ok(r) = super::varint::get(&raw, &mut pos) else { return };
-            runs.push(r);
-        }
+        let runs = col(&mut pos, &mut ok);
+        // (runs may be cut short by a broken stream: whatever was decoded still counts)
         for r in &runs {
             w.tiles = w.tiles.saturating_add(*r & 0xffff_ffff);
-            if w.tiles > lim.max_tiles {
-                w.over = true;
-                return;
-            }
         }
-        let mut lens = Vec::with_capacity(n);
-        for _ in 0..n {
-            let Ok(l) = super::varint::get(&raw, &mut pos) else { return };
-            lens.push(l);
+        if w.tiles > lim.max_tiles {
+            w.over = true;
+            break;
+        }
+        if !ok {
+            continue;
+        }
+        let lens = col(&mut pos, &mut ok);
+        if !ok {
+            continue;
         }
         let mut offs: Vec<u64> = Vec::with_capacity(n);
         for i in 0..n {
-            let Ok(v) = super::varint::get(&raw, &mut pos) else { return };
+            let Ok(v) = super::varint::get(&raw, &mut pos) else {
+                ok = false;
+                break;
+            };
             let o = if v == 0 && i > 0 { offs[i - 1].wrapping_add(lens[i - 1] & 0xffff_ffff) } else { v.wrapping_sub(1) };
             offs.push(o);
         }
-        for i in 0..n {
+        let _ = ok;
+        for i in 0..offs.len() {
             if runs[i] & 0xffff_ffff == 0 {
-                go(bytes, h, h.leaf_off.wrapping_add(offs[i]), lens[i] & 0xffff_ffff, depth + 1, lim, w);
-                if w.over {
-                    return;
-                }
+                todo.push((h.leaf_off.wrapping_add(offs[i]), lens[i] & 0xffff_ffff));
             }
         }
-        let _ = ids;
     }
-    go(bytes, &h, h.root_off, h.root_len, 0, lim, &mut w);
     w
 }
 
